@@ -232,9 +232,8 @@ def _ask(shard):
 
 
 def _ask_par(shards):
-    import multiprocessing as mp
-    with mp.get_context("fork").Pool(len(shards)) as pool:
-        return pool.map(_ask, shards, chunksize=1)
+    from core import fork_map
+    return fork_map(_ask, shards, nproc=len(shards), chunksize=1)
 
 
 def run(ctx):
